@@ -50,6 +50,17 @@ def cases(rng, tier, shard, nshards):
             pts, meta = gen.curve(rng, nmax=500, nmin=80)
         else:
             pts, meta = gen.curve(rng, nmax=80)
+        if rng.random() < 0.06:
+            # staircase with a steep drop then plateaus creeping UP by parts in 1e10..1e13: the knees at the step feet are
+            # near-ties that are not ties, so the worst-knee stage must drop the later, slightly higher ones
+            k = int(rng.integers(3, 7))
+            w = int(rng.integers(4, 10))
+            base = float(pick(rng, [1.0, 37.5, 2.32e11, 0.004]))
+            lv = [base * 3.0] + [base * (1.0 + j * float(pick(rng, [4e-10, 1e-11, 3e-13]))) for j in range(k)]
+            y = np.repeat(np.array(lv), w)
+            y[:w] = np.linspace(base * 6.0, base * 3.0, w)
+            x = np.arange(1, len(y) + 1, dtype=float)
+            pts, meta = np.ascontiguousarray(np.column_stack((x, y))), {'family': 'stairs-creeping-up'}
         c = config(rng, len(pts))
         c.update({'points': pts, 'family': meta['family'], 'layout': gen.pick_layout(rng, pts)})
         if rng.random() < 0.3:       # history: a second pipeline configuration on the SAME array
